@@ -49,6 +49,10 @@ def gen(ctx):
                                   mode='r+'))
         D.append(dict(target=target, func=func, form='object', foreign=[], mode='r'))
         D.append(dict(target=target, func=func, form='object', foreign=[dict(kinds[0], where='')], mode='r'))
+    # a user's file at the top of a ragged array that is NAMED like a file of the other kind of array
+    for nm in ('arrayvalues.bin', 'values.bin'):
+        D.append(dict(target='RaggedArray', func='delete_raggedarray', form='str', meta=True, mode='r+',
+                      foreign=[dict(kind='file', name=nm, where='')]))
     if not ctx.quick:
         # several foreign entries at once, in several places
         for target, func in (('Array', 'delete_array'), ('RaggedArray', 'delete_raggedarray')):
@@ -70,12 +74,12 @@ def gen(ctx):
             for form in ('str', 'path'):
                 D.append(dict(target=target, func=func, form=form, foreign=[]))
     for func in ('asarray', 'create_array', 'asraggedarray', 'create_raggedarray', 'copy', 'rcopy', 'archive'):
-        for occ in ('Array', 'bigArray', 'RaggedArray', 'plaindir', 'file'):
+        for occ in ('Array', 'bigArray', 'RaggedArray', 'plaindir', 'emptydir', 'file'):
             for ow in (False, True):
                 for foreign in ([], [dict(kind='file', name='keep.dat', where='')],
                                 [dict(kind='file', name='arraydescription.tmp', where=''), dict(kind='file', name='metadata.tmp', where=''),
                                  dict(kind='file', name='.hidden', where='')]):
-                    if occ == 'file' and foreign:
+                    if occ in ('file', 'emptydir') and foreign:
                         continue
                     if len(foreign) > 1 and not ow:
                         continue
